@@ -11,7 +11,6 @@ structure KeepHyp (c0 : Cell) (x : Nat) (a : App) (sid : Nat) (s : Srv) : Prop w
   app : c0.app? x = some a
   srv : c0.srv? sid = some s
   on : a.server = some sid
-  notUp : s.state ≠ .up
   notBl : a.blacklisted = false
   notRenew : a.renew = false
   hasId : a.hasIdentity = true
@@ -27,9 +26,9 @@ def Keep (c0 : Cell) (x : Nat) (a : App) (sid : Nat) (ci : Cell) : Prop :=
     ai.unschedule = a.unschedule ∧ ai.renew = false
 
 /-- What the steps of a cycle may be, as far as `x` is concerned. -/
-def StepOk (x sid : Nat) (ci : Cell) (lab : Lab) : Prop :=
+def StepOk (x sid : Nat) (nu : Prop) (ci : Cell) (lab : Lab) : Prop :=
   PreOk ci lab ∨ lab = .clearEv ∨
-  ∃ a0 unpl after, PlaceOk a0 unpl after ci lab ∧
+  nu ∧ ∃ a0 unpl after, PlaceOk a0 unpl after ci lab ∧
     (a0.id = x → a0.server = some sid ∧ a0.renew = false ∧ unpl = false)
 
 theorem allocInfo_same {c c' : Cell} (h : c'.allocs = c.allocs) (al : Nat) : c'.allocInfo al = c.allocInfo al := by
@@ -70,7 +69,7 @@ theorem no_just {c0 ci : Cell} {x : Nat} {a ai : App} {sid : Nat} {s s0 : Srv} (
 
 /-- One step preserves `Keep`. -/
 theorem keep_step {c0 ci ci' : Cell} {x : Nat} {a : App} {sid : Nat} {s : Srv} {lab : Lab}
-    (hh : KeepHyp c0 x a sid s) (hk : Keep c0 x a sid ci) (hok : StepOk x sid ci lab)
+    (hh : KeepHyp c0 x a sid s) (hk : Keep c0 x a sid ci) (hok : StepOk x sid (s.state ≠ .up) ci lab)
     (hp : LPrim lab ci ci') : Keep c0 x a sid ci' := by
   obtain ⟨hs, hc, ai, hai, hsv, hidn, hun, hrn⟩ := hk
   have hs' : SameStatic c0 ci' := hs.trans (sameStatic_lprim hp)
@@ -78,9 +77,10 @@ theorem keep_step {c0 ci ci' : Cell} {x : Nat} {a : App} {sid : Nat} {s : Srv} {
   obtain ⟨a_, ha_, hstat⟩ := app?_stat_of hs hai
   rw [hh.app] at ha_; cases ha_
   obtain ⟨s0, hs0, hs0stat⟩ := srv?_stat_to hs hh.srv
-  have hup0 : s0.state ≠ .up := by
+  have hup0 : s.state ≠ .up → s0.state ≠ .up := by
+    intro hnu
     have : s0.state = s.state := congrArg SrvStat.state hs0stat
-    rw [this]; exact hh.notUp
+    rw [this]; exact hnu
   -- untouched case
   by_cases ht' : lab.target ≠ some x
   · have ht := ht'
@@ -119,7 +119,7 @@ theorem keep_step {c0 ci ci' : Cell} {x : Nat} {a : App} {sid : Nat} {s : Srv} {
     have hsid' : sid' = sid := by rw [hsid, srv?_id hs1]
     subst hsid'
     rw [hs0] at hs1; cases hs1
-    rcases hok with hpre | hce | ⟨a0, unpl, after, hpl, hturn⟩
+    rcases hok with hpre | hce | ⟨hnu, a0, unpl, after, hpl, hturn⟩
     · simp only [PreOk] at hpre
       obtain ⟨x0, sx, hx0, hsx, hj⟩ := hpre
       rw [hai] at hx0; cases hx0
@@ -132,13 +132,13 @@ theorem keep_step {c0 ci ci' : Cell} {x : Nat} {a : App} {sid : Nat} {s : Srv} {
         rcases hcase with hu | ⟨hr, _⟩
         · rw [hun0] at hu; cases hu
         · rw [hrn0] at hr; cases hr
-      · rw [hs0] at hsx; cases hsx; exact hup0 hupx
+      · rw [hs0] at hsx; cases hsx; exact hup0 hnu hupx
   | release h =>
     rename_i aid
     have hx : aid = x := by simpa [Lab.target] using ht
     subst hx
     exfalso
-    rcases hok with hpre | hce | ⟨a0, unpl, after, hpl, _⟩
+    rcases hok with hpre | hce | ⟨hnu, a0, unpl, after, hpl, _⟩
     · simp only [PreOk] at hpre
       obtain ⟨x0, hx0, hn⟩ := hpre
       rw [hai] at hx0; cases hx0; rw [hsv] at hn; cases hn
@@ -151,7 +151,7 @@ theorem keep_step {c0 ci ci' : Cell} {x : Nat} {a : App} {sid : Nat} {s : Srv} {
     have hx : aid = x := by simpa [Lab.target] using ht
     subst hx
     exfalso
-    rcases hok with hpre | hce | ⟨a0, unpl, after, hpl, _⟩
+    rcases hok with hpre | hce | ⟨hnu, a0, unpl, after, hpl, _⟩
     · simp only [PreOk] at hpre
     · cases hce
     · simp only [PlaceOk] at hpl
@@ -171,7 +171,7 @@ theorem keep_step {c0 ci ci' : Cell} {x : Nat} {a : App} {sid : Nat} {s : Srv} {
     rw [hx] at ha
     rw [hai] at ha; cases ha
     have hb : b = false := by
-      rcases hok with hpre | hce | ⟨a0, unpl, after, hpl, hturn⟩
+      rcases hok with hpre | hce | ⟨hnu, a0, unpl, after, hpl, hturn⟩
       · simp only [PreOk] at hpre
       · cases hce
       · simp only [PlaceOk] at hpl
@@ -188,14 +188,14 @@ theorem keep_step {c0 ci ci' : Cell} {x : Nat} {a : App} {sid : Nat} {s : Srv} {
     rename_i a1 v
     have hx : a1.id = x := by simpa [Lab.target] using ht
     exfalso
-    rcases hok with hpre | hce | ⟨a0, unpl, after, hpl, _⟩
+    rcases hok with hpre | hce | ⟨hnu, a0, unpl, after, hpl, _⟩
     · simp only [PreOk] at hpre
     · cases hce
     · simp only [PlaceOk] at hpl
       obtain ⟨_, _, _, _, x0, sidx, sx, hx0, hsvx, hsx, hupx, _⟩ := hpl
       rw [hx, hai] at hx0; cases hx0
       rw [hsv] at hsvx; cases hsvx
-      rw [hs0] at hsx; cases hsx; exact hup0 hupx
+      rw [hs0] at hsx; cases hsx; exact hup0 hnu hupx
   | dropDangling ha hon hgone =>
     rename_i a1 sid'
     have hx : a1.id = x := by simpa [Lab.target] using ht
@@ -231,7 +231,7 @@ theorem keep_prepass {c0 c1 : Cell} {x : Nat} {a : App} {sid : Nat} {s : Srv} (h
 
 theorem keep_loop {c0 : Cell} {x : Nat} {a : App} {sid : Nat} {s : Srv} (hh : KeepHyp c0 x a sid s)
     {revq : List Nat} {qs : List (Nat × Bool)} {ci cj : Cell} (hl : Loop revq qs ci cj)
-    (hq : ∀ q ∈ qs, q.1 = x → q.2 = false) (hk : Keep c0 x a sid ci) : Keep c0 x a sid cj := by
+    (hnu : s.state ≠ .up) (hq : ∀ q ∈ qs, q.1 = x → q.2 = false) (hk : Keep c0 x a sid ci) : Keep c0 x a sid cj := by
   induction hl with
   | nil => exact hk
   | @cons q qs' c c1 c2 a0 ha0 hchain _ _ ih =>
@@ -242,29 +242,29 @@ theorem keep_loop {c0 : Cell} {x : Nat} {a : App} {sid : Nat} {s : Srv} (hh : Ke
       rw [hq1, hai] at ha0; cases ha0
       exact ⟨hsv, hrn, hq q List.mem_cons_self hq1⟩
     have hk1 : Keep c0 x a sid c1 :=
-      hchain.induct (fun _ _ _ hk hp lp => keep_step hh hk (Or.inr (Or.inr ⟨a0, q.2, _, hp, hturn⟩)) lp) hk
+      hchain.induct (fun _ _ _ hk hp lp => keep_step hh hk (Or.inr (Or.inr ⟨hnu, a0, q.2, _, hp, hturn⟩)) lp) hk
     exact ih (fun q' hq' => hq q' (List.mem_cons_of_mem _ hq')) hk1
 
 theorem keep_cycle {c0 : Cell} {x : Nat} {a : App} {sid : Nat} {s : Srv} (hh : KeepHyp c0 x a sid s)
     {qs : List (List (Nat × Bool))} {ci cj : Cell} (hcy : Cycle qs ci cj)
-    (hq : ∀ q ∈ qs, ∀ e ∈ q, e.1 = x → e.2 = false) (hk : Keep c0 x a sid ci) : Keep c0 x a sid cj := by
+    (hnu : s.state ≠ .up) (hq : ∀ q ∈ qs, ∀ e ∈ q, e.1 = x → e.2 = false) (hk : Keep c0 x a sid ci) : Keep c0 x a sid cj := by
   induction hcy with
   | nil => exact hk
   | @cons q qs' c c1 c2 hl _ ih =>
     have hk0 : Keep c0 x a sid (clearGhost c) := keep_step hh hk (Or.inr (Or.inl rfl)) .clearEv
     exact ih (fun q' hq' => hq q' (List.mem_cons_of_mem _ hq'))
-      (keep_loop hh hl (hq q List.mem_cons_self) hk0)
+      (keep_loop hh hl hnu (hq q List.mem_cons_self) hk0)
 
 /-- **Core of C08.** An app on a server that is not up — not blacklisted, not over its cap, holding a
     valid identity, eligible for the server, no renewal pending, and (down) inside its retention
     window or (frozen) not marked for unscheduling — is still on that server after the cycle. -/
 theorem keep_schedule {c0 c' : Cell} {qs ch} {x : Nat} {a : App} {sid : Nat} {s : Srv}
-    (hc : InvCap c0) (hh : KeepHyp c0 x a sid s)
+    (hc : InvCap c0) (hh : KeepHyp c0 x a sid s) (hnu : s.state ≠ .up)
     (hq : ∀ q ∈ qs, ∀ e ∈ q, e.1 = x → e.2 = false)
     (h : schedule c0 qs ch = .ok c') : ∃ a', c'.app? x = some a' ∧ a'.server = some sid := by
   obtain ⟨c1, hpre, hcy⟩ := schedule_cycle hc h
   have hk0 : Keep c0 x a sid c0 := ⟨.refl _, hc, a, hh.app, hh.on, rfl, rfl, hh.notRenew⟩
-  obtain ⟨_, _, ai, hai, hsv, _⟩ := keep_cycle hh hcy hq (keep_prepass hh hk0 hpre)
+  obtain ⟨_, _, ai, hai, hsv, _⟩ := keep_cycle hh hcy hnu hq (keep_prepass hh hk0 hpre)
   exact ⟨ai, hai, hsv⟩
 
 end TmVerif.Sched
